@@ -30,7 +30,8 @@ META = {
     "text": "TLC checks for every program of the family (durations = every variable category alone, all sums of two categories, products, "
             "differences; one and two call sites; call sites inside a for-loop with durations that are scalar, the loop index, or indexed "
             "arrays, with and without other uses of the variables in the loop body; options default / replace_constant_values / "
-            "replace_parameter_values / expand_vectors) that the symbol-based pipeline rejects exactly the models the category-based "
+            "replace_parameter_values / expand_vectors / detect_aliases with an alias pair in durations and expressions / cache=True with the "
+            "request repeated) that the symbol-based pipeline rejects exactly the models the category-based "
             "property rejects and that the delay arguments equal the values of expression and duration.  Each program is compiled by "
             "transfer_model(cache=False): ValueError iff rejected, otherwise delay_arguments_function is evaluated at 2 integer points "
             "and compared element by element.",
@@ -41,10 +42,10 @@ META = {
     "design_ref": "DESIGN.md section 6, C22",
 }
 
-CLASS_TAGS = {"outside", "two", "loop", "mixed", "accept", "reject", "in-loop", "outside-loop", "loop-indexed-duration",
+CLASS_TAGS = {"outside", "two", "loop", "mixed", "alias", "opt-aliases", "opt-cache", "accept", "reject", "in-loop", "outside-loop", "loop-indexed-duration",
               "loop-expr-free-var", "paramvals-in-delay", "opt-default", "opt-constvals", "opt-paramvals", "opt-expand"}
 OPTS = {"default": {}, "constvals": {"replace_constant_values": True}, "paramvals": {"replace_parameter_values": True},
-        "expand": {"expand_vectors": True}}
+        "expand": {"expand_vectors": True}, "aliases": {"detect_aliases": True}, "cache": {"cache": True}}
 
 
 def rexpr(e):
@@ -69,7 +70,7 @@ def rexpr(e):
 
 
 def render(prog):
-    eqs = ["  der(x) = (-x);", "  a = (x + u);", "  xs[1] = x;", "  xs[2] = a;"]
+    eqs = ["  der(x) = (-x);", "  a = (x + u);", "  xs[1] = x;", "  xs[2] = a;", "  b1 = b2;", "  b2 = (2 * a);"]
     targets = ["y", "z"]
     used = set()
     for s in prog["sites"]:
@@ -91,9 +92,12 @@ def render(prog):
     for t in ("ys", "zs"):
         if t not in used:
             eqs += ["  %s[1] = 1;" % t, "  %s[2] = 2;" % t]
-    return ("model M\n  constant Real c = 2;\n  parameter Real p = 3;\n  parameter Real ps[2] = {1, 2};\n"
+    # the array parameter is declared only when used (load_model of a cached model with an array parameter fails in
+    # variable_metadata - model-cache territory, C19 - and would hide what this check is about)
+    uses_ps = '"ps"' in json.dumps(prog)
+    return ("model M\n  constant Real c = 2;\n  parameter Real p = 3;\n" + ("  parameter Real ps[2] = {1, 2};\n" if uses_ps else "") +
             "  input Real uf(fixed = true);\n  input Real u;\n  Real x;\n  Real a;\n  Real y;\n  Real z;\n"
-            "  Real xs[2];\n  Real ys[2];\n  Real zs[2];\nequation\n%s\nend M;\n" % "\n".join(eqs))
+            "  Real xs[2];\n  Real ys[2];\n  Real zs[2];\n  Real b1;\n  Real b2;\nequation\n%s\nend M;\n" % "\n".join(eqs))
 
 
 def value_for(name, n, pt):
@@ -116,13 +120,62 @@ def value_for(name, n, pt):
     return [float(v) for v in vals]
 
 
-def observe(item):
+def request(folder, opts, item):
+    """one transfer_model request -> {"verdict", ["exc"], ["function", "args" | "fexc"]}"""
     import casadi as ca
     from pymoca.backends.casadi.api import transfer_model
+    obs = {}
+    try:
+        model = transfer_model(folder, "M", dict(opts))
+    except Exception as e:
+        obs["exc"] = exc_record(e)
+        obs["verdict"] = "reject" if isinstance(e, ValueError) and "Delay durations" in str(e) else "raised"
+        return obs
+    obs["verdict"] = "accept"
+    try:
+        f = model.delay_arguments_function
+        lists = [model.states, model.der_states, model.alg_states, model.inputs, model.constants, model.parameters]
+        sizes = [[(v.symbol.name(), v.symbol.size1() * v.symbol.size2()) for v in L] for L in lists]
+        res = []
+        for pt in item["points"]:
+            args = [float(pt["time"])]
+            for L in sizes:
+                vec = []
+                for name, n in L:
+                    vec += value_for(name, n, pt)
+                args.append(ca.DM(vec) if vec else ca.DM.zeros(0, 1))
+            outs = f(*args)
+            if not isinstance(outs, (list, tuple)):
+                outs = [outs]
+            if len(outs) % 2:
+                obs["function"] = "odd number of outputs"
+                return obs
+            pairs = []
+            for k in range(0, len(outs), 2):
+                ex = [float(x) for x in ca.densify(ca.DM(outs[k])).nonzeros()]
+                du = [float(x) for x in ca.densify(ca.DM(outs[k + 1])).nonzeros()]
+                if len(du) == 1:
+                    du = du * len(ex)
+                if len(du) != len(ex):
+                    obs["function"] = "expression with %d elements, duration with %d" % (len(ex), len(du))
+                    return obs
+                pairs += [[a, b] for a, b in zip(ex, du)]
+            res.append(pairs)
+        obs["function"] = "built"
+        obs["args"] = res
+    except MachineryError:
+        raise
+    except Exception as e:
+        obs["function"] = "error"
+        obs["fexc"] = exc_record(e)
+    return obs
+
+
+def observe(item):
+    """-> observation of the first request (+ "second": observation of the repeated request for the cache option set)"""
     logging.disable(logging.CRITICAL)
     prog = item["prog"]
     txt = render(prog)
-    obs = {"text": txt}
     d = tempfile.mkdtemp(prefix="c22_")
     old = os.environ.get("XDG_CACHE_HOME")
     os.environ["XDG_CACHE_HOME"] = os.path.join(d, "cache")
@@ -132,49 +185,10 @@ def observe(item):
             f.write(txt)
         opts = {"cache": False}
         opts.update(OPTS[prog["opt"]])
-        try:
-            model = transfer_model(os.path.join(d, "m"), "M", opts)
-        except Exception as e:
-            obs["exc"] = exc_record(e)
-            obs["verdict"] = "reject" if isinstance(e, ValueError) and "Delay durations" in str(e) else "raised"
-            return obs
-        obs["verdict"] = "accept"
-        try:
-            f = model.delay_arguments_function
-            lists = [model.states, model.der_states, model.alg_states, model.inputs, model.constants, model.parameters]
-            sizes = [[(v.symbol.name(), v.symbol.size1() * v.symbol.size2()) for v in L] for L in lists]
-            res = []
-            for pt in item["points"]:
-                args = [float(pt["time"])]
-                for L in sizes:
-                    vec = []
-                    for name, n in L:
-                        vec += value_for(name, n, pt)
-                    args.append(ca.DM(vec) if vec else ca.DM.zeros(0, 1))
-                outs = f(*args)
-                if not isinstance(outs, (list, tuple)):
-                    outs = [outs]
-                if len(outs) % 2:
-                    obs["function"] = "odd number of outputs"
-                    return obs
-                pairs = []
-                for k in range(0, len(outs), 2):
-                    ex = [float(x) for x in ca.DM(outs[k]).nonzeros()] if ca.DM(outs[k]).is_dense() else [float(x) for x in ca.densify(ca.DM(outs[k])).nonzeros()]
-                    du = [float(x) for x in ca.densify(ca.DM(outs[k + 1])).nonzeros()]
-                    if len(du) == 1:
-                        du = du * len(ex)
-                    if len(du) != len(ex):
-                        obs["function"] = "expression with %d elements, duration with %d" % (len(ex), len(du))
-                        return obs
-                    pairs += [[a, b] for a, b in zip(ex, du)]
-                res.append(pairs)
-            obs["function"] = "built"
-            obs["args"] = res
-        except MachineryError:
-            raise
-        except Exception as e:
-            obs["function"] = "error"
-            obs["fexc"] = exc_record(e)
+        obs = request(os.path.join(d, "m"), opts, item)
+        obs["text"] = txt
+        if prog["opt"] == "cache":
+            obs["second"] = request(os.path.join(d, "m"), opts, item)
         return obs
     finally:
         if old is None:
@@ -189,6 +203,19 @@ def rat(q):
 
 
 def judge(item, obs):
+    recs, drift, compared = judge_request(item, obs, obs["text"], "")
+    if "second" in obs:
+        # the same request again (answered from the model cache when the first one stored the model)
+        r2, d2, c2 = judge_request(item, obs["second"], obs["text"], "repeated request: ")
+        for r in r2:
+            r["tags"] = sorted(set(r["tags"]) | {"second-request"})
+        recs += r2
+        drift += [x for x in d2 if x not in drift]
+        compared += ["second-request"]
+    return recs, drift, compared
+
+
+def judge_request(item, obs, text, prefix):
     exp, ab = item["expect"], item["asbuilt"]
     tags = sorted(set(item["tags"]) & CLASS_TAGS)
     recs, drift, compared = [], [], ["verdict"]
@@ -206,7 +233,7 @@ def judge(item, obs):
 
     def rec(observable, detail, exc=None):
         recs.append({"observable": observable, "tags": tags + (["matches-asbuilt"] if ab_same else []),
-                     "exception_type": exc, "detail": detail + "\n" + obs["text"]})
+                     "exception_type": exc, "detail": prefix + detail + "\n" + text})
 
     if exp["reject"]:
         if obs["verdict"] == "accept":
@@ -257,21 +284,24 @@ def cached_items(tier="quick"):
 def run(ctx):
     thorough = ctx.tier == "thorough"
     from concurrent.futures import ThreadPoolExecutor
-    sws = (("ownfree", "RejectsExactly"), ("durmap", "NoPlaceholderLeft"), ("pvals", "ArgumentsPreserved"))
-    with ThreadPoolExecutor(3) as ex:
+    # as-built deviations of the for-loop handling (still in the code), the repaired replace_parameter_values deviation, and
+    # two variants the code does NOT have (save before check, aliases not reaching durations): TLC must refute each
+    sws = (("asbuilt_ownfree", "RejectsExactly"), ("asbuilt_durmap", "NoPlaceholderLeft"), ("asbuilt_pvals", "ArgumentsPreserved"),
+           ("variant_savefirst", "CacheHoldsOnlyAccepted"), ("variant_aliasdur", "RejectsExactly"))
+    with ThreadPoolExecutor(4) as ex:
         main = ex.submit(tlc.run, "Delay", "Delay_thorough.cfg" if thorough else "Delay_quick.cfg", workers=1, timeout=1500)
-        futs = [(sw, inv, ex.submit(tlc.run, "Delay", "Delay_asbuilt_%s.cfg" % sw, workers=1)) for sw, inv in sws]
+        futs = [(sw, inv, ex.submit(tlc.run, "Delay", "Delay_%s.cfg" % sw, workers=1)) for sw, inv in sws]
         cex = {}
         for sw, inv, f in futs:
             r = f.result()
-            ctx.add_tlc(r, "as-built switch %s: counterexample expected" % sw)
+            ctx.add_tlc(r, "%s: counterexample expected" % sw)
             if inv not in r.violated:
                 raise MachineryError("as-built switch %s: TLC did not report a violation of %s (got %s)" % (sw, inv, r.violated))
             cex[sw] = r.violated
         items = tlc_items(ctx, main.result(), "intended switches, %s family: invariants + PROG lines" % ctx.tier)
     ctx.extra["asbuilt_counterexamples"] = cex
     results = pmap(work, items)
-    by_tag, by_obs, ab_agree, verdicts = {}, {}, 0, {}
+    by_tag, by_obs, ab_agree, verdicts, second = {}, {}, 0, {}, {}
     for it, out in zip(items, results):
         ctx.programs += 1
         for t in it["tags"]:
@@ -286,11 +316,14 @@ def run(ctx):
             ab_agree += 1
         for rec in out["recs"]:
             ctx.violation(rec, {"item": it})
+        if "second" in out["obs"]:
+            k2 = "%s/%s" % (out["obs"]["verdict"], out["obs"]["second"]["verdict"])
+            second[k2] = second.get(k2, 0) + 1
         if not out["recs"] and out["obs"].get("function") == "built" and "in-loop" in it["tags"]:
             ctx.sample({"modelica": out["obs"]["text"], "expected_pairs": it["expect"]["args"], "observed_pairs": out["obs"]["args"]}, limit=2)
         if not out["recs"] and it["expect"]["reject"]:
             ctx.sample({"modelica": out["obs"]["text"], "expected": "reject", "observed": out["obs"]["exc"]["detail"]}, limit=4)
-    need = ["outside", "loop", "mixed", "accept", "reject", "loop-indexed-duration", "loop-expr-free-var", "paramvals-in-delay",
+    need = ["outside", "loop", "mixed", "alias", "opt-aliases", "opt-cache", "accept", "reject", "loop-indexed-duration", "loop-expr-free-var", "paramvals-in-delay",
             "opt-default", "opt-constvals", "opt-paramvals", "opt-expand"] + ["dur:" + c for c in (
                 "constant", "parameter", "fixed input", "input", "state", "derivative", "algebraic", "time")]
     for t in need:
@@ -321,6 +354,11 @@ def run(ctx):
     ctx.extra["programs_by_tag"] = by_tag
     ctx.extra["observable_compared_on_programs"] = by_obs
     ctx.extra["expected/observed_verdicts"] = verdicts
+    ctx.extra["first/second_request_verdicts"] = second
+    n_rej2 = sum(1 for it in items if it["prog"]["opt"] == "cache" and it["expect"]["reject"])
+    n_acc2 = sum(1 for it in items if it["prog"]["opt"] == "cache" and not it["expect"]["reject"])
+    if n_rej2 < 5 or n_acc2 < 3 or sum(second.values()) != n_rej2 + n_acc2:
+        raise MachineryError("vacuous: repeated cached requests %s (%d rejecting, %d accepting programs)" % (second, n_rej2, n_acc2))
     ctx.extra["programs_where_code_equals_asbuilt_model"] = ab_agree
     ctx.extra["binding_selftest_corruptions_caught"] = caught
     ctx.assumptions += ["transfer_model is called with cache=False and the option set of the program; the parse cache lives in a scratch XDG_CACHE_HOME",
